@@ -1083,17 +1083,20 @@ fn listing(bytes: &[u8]) -> Result<(Vec<(String, u16, String, u64, Option<u32>, 
     let mut a = zip::ZipArchive::new(Cursor::new(bytes.to_vec())).map_err(|e| cls_z(&e))?;
     let mut v = vec![];
     for i in 0..a.len() {
-        let (name, m, size, mode, t) = {
+        let (name, m, size, mode, t, csize, crc) = {
             let f = a.by_index_raw(i).map_err(|e| cls_z(&e))?;
             #[allow(deprecated)]
             let m = f.compression().to_u16();
             let t = f.last_modified();
-            (f.name().to_string(), m, f.size(), f.unix_mode(), (t.year(), t.month(), t.day(), t.hour(), t.minute(), t.second()))
+            (f.name().to_string(), m, f.size(), f.unix_mode(), (t.year(), t.month(), t.day(), t.hour(), t.minute(), t.second()), f.compressed_size(), f.crc32())
         };
         let content = match a.by_index(i) {
             Ok(mut f) => { let mut b = vec![]; match f.read_to_end(&mut b) { Ok(_) => format!("ok:{}:{}", crc32fast::hash(&b), b.len()), Err(e) => cls_io(&e) } }
             Err(e) => cls_z(&e),
         };
+        // the declared compressed size and CRC-32 are part of what an append must keep (the content string alone
+        // cannot tell them apart when an entry is unreadable before and after)
+        let content = format!("{content} csize={csize} crc={crc}");
         v.push((name, m, content, size, mode, t));
     }
     Ok((v, a.comment().to_vec()))
@@ -1117,7 +1120,11 @@ fn oracle_append(calls: &[String], srcs: &[Vec<u8>]) -> Vec<OracleFailure> {
         let set_comment = calls.iter().any(|c| c.starts_with("c,"));
         let want_comment = if set_comment { ro.comment.clone() } else { before.1.clone() };
         let line_key = calls.join(";");
-        f.extend(c02_checks(&line_key, calls, srcs, &ro, live, before.0.len(), &want_comment));
+        // garbage in: a base that is not a valid archive itself (a lying size, a CRC that does not match, ...)
+        // hands its defects down to every appended archive; C02 speaks about what the WRITER adds to a valid base
+        let base_ok = strict_parse(&base, &StrictOpts { utf8_contract: false, allow_trailing: true, ..Default::default() }).errors.is_empty();
+        if base_ok { f.extend(c02_checks(&line_key, calls, srcs, &ro, live, before.0.len(), &want_comment)); }
+        else { c02_count("append.base-not-strict", 1); }
     }
     let mut after = match catch({ let bytes = bytes.clone(); move || listing(&bytes) }) {
         Ok(Ok(l)) => l,
@@ -1157,7 +1164,7 @@ fn oracle_append(calls: &[String], srcs: &[Vec<u8>]) -> Vec<OracleFailure> {
         if a.0.as_bytes() != &name[..] || a.1 != *m { f.push(OracleFailure { what: format!("append: new entry {k} name/method differ") }); }
         if let Some(p) = plain {
             let enc = line_entry_encrypted(calls, k);
-            if !enc && a.2 != format!("ok:{}:{}", crc32fast::hash(p), p.len()) { f.push(OracleFailure { what: format!("append: new entry {k} content differs: {}", a.2) }); }
+            if !enc && !a.2.starts_with(&format!("ok:{}:{} ", crc32fast::hash(p), p.len())) { f.push(OracleFailure { what: format!("append: new entry {k} content differs: {}", a.2) }); }
         }
     }
     f
